@@ -996,11 +996,42 @@ fn inner_c16(world_no: u64, t: &mut Tape, rep: &mut WorldReport) {
         }
         intended.insert(k.clone(), v);
     }
-    // undeclared extras
+    // undeclared extras: unrelated names, and names that differ from a declared one only by case
+    // or by surrounding blanks (parameter names are exact strings)
     let extras = t.index(3);
     for i in 0..extras {
-        let k = format!("extra_{i}");
-        let j = random_json(t, 2);
+        let near = if !declared.is_empty() && t.chance(1, 2) {
+            let (dk, dty) = declared.iter().nth(t.index(declared.len())).unwrap();
+            let variant = match t.draw(4) {
+                0 => dk.to_uppercase(),
+                1 => dk.to_lowercase(),
+                2 => {
+                    let mut c = dk.chars();
+                    c.next().map(|f| f.to_uppercase().collect::<String>() + c.as_str()).unwrap_or_default()
+                }
+                _ => format!(" {dk}"),
+            };
+            if declared.contains_key(&variant) || variant.is_empty() {
+                None
+            } else {
+                // a well-formed value of the declared type (different from the real one) or junk
+                let j = if t.chance(2, 3) {
+                    intended_for(t, dty).map(|v| render(t, &v).0).unwrap_or(J::Null)
+                } else {
+                    random_json(t, 1)
+                };
+                Some((variant, j))
+            }
+        } else {
+            None
+        };
+        let (k, j) = match near {
+            Some(x) => {
+                rep.fire("near-miss-extra");
+                x
+            }
+            None => (format!("extra_{i}"), random_json(t, 2)),
+        };
         if t.chance(1, 2) {
             args_map.insert(k, j);
         } else {
